@@ -58,7 +58,11 @@ func (w *world) rndChanDef() J {
 	n := 1 + g.R.Intn(3)
 	st := make([]any, n)
 	for i := range st {
-		st[i] = J{"sid": S(1 + g.R.Intn(5)), "agg": S(1 + g.R.Intn(3))}
+		sid := 1 + g.R.Intn(5)
+		if g.R.Intn(25) == 0 {
+			sid = 0 // the zero id is an ordinary id
+		}
+		st[i] = J{"sid": S(sid), "agg": S(1 + g.R.Intn(3))}
 	}
 	opts := ""
 	if g.R.Intn(2) == 0 {
@@ -70,6 +74,9 @@ func (w *world) rndChanDef() J {
 func (w *world) rndChannelID() int {
 	if w.g.R.Intn(20) == 0 {
 		return 1000 + w.g.R.Intn(3)
+	}
+	if w.g.R.Intn(30) == 0 {
+		return 0 // the zero id is an ordinary id
 	}
 	return 1 + w.g.R.Intn(6)
 }
